@@ -46,7 +46,9 @@ pub fn rule_claimed(def: &CheckDef, rule: &str) -> bool {
 /// seed -> Plan for the given check. The family is drawn from the seed (swarm style).
 pub fn generate(id: &str, run_seed: u64, _thorough: bool) -> Plan {
     let pick = mix2(run_seed, 0xF00D) % 100;
-    let full = GeneralOpts { rich_payloads: false, consumer_faults: true, publisher_faults: true, deletes: true, push: false, stalls: true, big_batches: true, single_drain_consumer_share: 10 };
+    // thorough tier: a quarter of the general-family runs are wide
+    let scale = if _thorough && mix2(run_seed, 0x5CA1E) % 4 == 0 { 2 } else { 1 };
+    let full = GeneralOpts { scale, rich_payloads: false, consumer_faults: true, publisher_faults: true, deletes: true, push: false, stalls: true, big_batches: true, single_drain_consumer_share: 10 };
     match id {
         "C01" => {
             if pick < 60 {
